@@ -50,7 +50,7 @@ FLAVOURS = {
     "plain": ["-O1", "-g"],
     "asan": ["-O1", "-g", "-fsanitize=address,undefined", "-fno-sanitize-recover=undefined", "-fno-omit-frame-pointer",
              "-D_GLIBCXX_DEBUG", "-D_GLIBCXX_ASSERTIONS"],
-    "tsan": ["-O1", "-g", "-fsanitize=thread"],
+    "tsan": ["-O1", "-g", "-fsanitize=thread", "-fno-inline"],
 }
 BASE_FLAGS = ["-std=c++17", "-Wall", "-Wextra", "-pthread", "-DCAPPUCCINO_VERIF_HOOKS"]
 
